@@ -79,6 +79,18 @@ package sunlight
 
 // ---- C10: tile leaves and tile paths
 
+// The TileLeaf layout of the Static CT API (fpBytes: what the fingerprint loop appended, 32 bytes per fingerprint):
+//   timestamp(8) entry_type(2) [issuer_key_hash(32)] u24-prefixed certificate-or-TBS  u16-prefixed extensions
+//   [u24-prefixed pre-certificate]  u16-prefixed fingerprints
+//@ pure func tileLeafHead(e sunlight.LogEntry) bytes = ite(e.IsPrecert, u64(e.Timestamp) + u16(1) + e.IssuerKeyHash + u24(len(e.Certificate)) + e.Certificate, u64(e.Timestamp) + u16(0) + u24(len(e.Certificate)) + e.Certificate)
+//@ pure func tileLeafTail(e sunlight.LogEntry, fps bytes) bytes = ite(e.IsPrecert, u24(len(e.PreCertificate)) + e.PreCertificate + u16(len(fps)) + fps, u16(len(fps)) + fps)
+//@ func sunlight.AppendTileLeaf props C04 C10
+//@   requires e != nil
+//@   invariant "range e.ChainFingerprints" fingerprints-appended-in-order: rangeindex < len(e.ChainFingerprints) && len(b.gout) == 32 * (rangeindex + 1) && !b.gerr
+//@   call cryptobyte.(*Builder).AddUint16LengthPrefixed bind fpBytes = child.gout
+//@   returns [C04,C10] tile-leaf-layout-x509: (!e.IsPrecert && e.Timestamp >= 0 && len(e.Certificate) < 16777216 && len(e.ChainFingerprints) < 2048 && (e.RFC6962ArchivalLeaf || (0 <= e.LeafIndex && e.LeafIndex < 1099511627776))) ==> (ret == t + tileLeafHead(*e) + extBytes(*e) + tileLeafTail(*e, fpBytes) && len(fpBytes) == 32 * len(e.ChainFingerprints))
+//@   returns [C04,C10] tile-leaf-layout-precert: (e.IsPrecert && e.Timestamp >= 0 && len(e.Certificate) < 16777216 && len(e.PreCertificate) < 16777216 && len(e.ChainFingerprints) < 2048 && (e.RFC6962ArchivalLeaf || (0 <= e.LeafIndex && e.LeafIndex < 1099511627776))) ==> (ret == t + tileLeafHead(*e) + extBytes(*e) + tileLeafTail(*e, fpBytes) && len(fpBytes) == 32 * len(e.ChainFingerprints))
+
 //@ func sunlight.readTileLeaf nopanic props C10 C12
 //@   call cryptobyte.(*String).ReadUint16LengthPrefixed bind ext0 = *c_out when c_out == &extensions
 //@   call cryptobyte.(*String).ReadUint64 bind tile0 = old(*c_recv)
